@@ -333,7 +333,9 @@ def c2s(ctx, nhist):
         obs.append({'events': events})
         ctx.note(('c2s', i))
     ctx.evals += sum(len(o['events']) for o in obs)
-    bad = ctx.validate('Trace_Dictable', obs)
+    bad = []
+    for k in range(0, len(obs), 1000):           # one log of 5 000 histories (70 MB of JSON) exhausts TLC's heap: validate in slices
+        bad += [(line + k, clause) for line, clause in ctx.validate('Trace_Dictable', obs[k:k + 1000])]
     for line, clause in bad:
         ev = obs[line - 1]['events']
         k = int(clause.split(':')[0][4:])
